@@ -71,6 +71,10 @@ def field_routes():
            "function main() -> void { G<qubit> g = new G<qubit>(); g.go(); g.go(); }")
     R.append(("local of type T = qubit, never measured: accepts a measurement", gen % "bit b = measure w; echo(b);", "runs:0\n0\n"))
     R.append(("local of type T = qubit, measured twice", gen % "measure w; measure w; echo(\"again\");", "refused"))
+    genr = ("class G<T> { public constructor() -> G<T> { }\n  public function go() -> void { T[2] la; %s } }\n"
+            "function main() -> void { G<qubit> g = new G<qubit>(); g.go(); }")
+    R.append(("local register of type T[2], T = qubit, never measured: accepts a measurement", genr % "measure la; echo(\"measured\");", "runs:measured\n"))
+    R.append(("local register of type T[2], T = qubit, measured twice", genr % "measure la; measure la; echo(\"again\");", "refused"))
     # a measurement written once inside an array literal in expression position happens once
     lit = "function show(bit[] b) -> void { echo(b[0]); }\nfunction main() -> void { qubit q; x(q); %s }"
     R.append(("measure as the first element of an array-literal argument", lit % "show({measure q});", "runs:1\n"))
